@@ -3,6 +3,7 @@ package rules
 import (
 	"fmt"
 	"go/types"
+	"regexp/syntax"
 	"sort"
 	"strings"
 
@@ -28,7 +29,7 @@ func init() {
 
 func runC14(x *Ctx) {
 	x.C.Rule("C14.R1", "tokenize partitions the input: no tail is dropped", 3)
-	x.C.Rule("C14.R2", "each token yields exactly one segment printing as that token, or an error", 3)
+	x.C.Rule("C14.R2", "each token yields exactly one segment printing as that token, or an error; slice tokens have exactly two parts", 4)
 	x.C.Rule("C14.R3", "policy tuple positions and arities agree between decoder and encoder", 6)
 
 	if f := x.fn("C14.R1", selPkg+"tokenize"); f != nil {
@@ -210,6 +211,45 @@ func parseAppendRule(x *Ctx, f *ssa.Function) {
 		}
 	}
 	x.C.Obl("C14.R2", "one-segment-per-token:Parse", x.pos(f), fmt.Sprintf("each of the %d iteration paths appends exactly one segment whose str is the whole token (or \".\"); every other exit inside the loop is an error", nLatch), bad == "" && nLatch > 0, bad)
+	// slice literals: every part of the token is used. The bounds come from strings.Split(lookup, ":")[0] and [1];
+	// the path must establish that there are exactly two parts: sliceRegex (whose alternatives each contain exactly
+	// one ':') matched, or an explicit len(parts) == 2 fact.
+	{
+		colons := regexColons(x)
+		badS, nS := "", 0
+		for _, p := range ps {
+			if p.End != paths.EndLatch || !p.EntersBody(l) {
+				continue
+			}
+			nv := p.LatchValue(sel)
+			if nv == nil || nv.Op != "call" || len(nv.Args) != 2 || nv.Args[1].Op != "varargs" {
+				continue
+			}
+			cell := paths.CellOf(nv.Args[1].Args[0])
+			if cell == nil {
+				continue
+			}
+			if _, isSlice := p.FieldStores(cell)["slice"]; !isSlice {
+				continue
+			}
+			nS++
+			ok := false
+			for _, f := range p.Facts {
+				s := f.Atom.String()
+				if f.Pol && strings.HasPrefix(s, "call[(*regexp.Regexp).MatchString](*global("+selPkg+"sliceRegex),") && colons["sliceRegex"] == 1 {
+					ok = true
+				}
+				if f.Pol && f.Atom.Op == "eq" && strings.Contains(s, "const(2)") && strings.Contains(s, "len(call[strings.Split](") {
+					ok = true
+				}
+			}
+			if !ok {
+				badS += "a slice segment is built from the first two ':'-separated parts of the token without establishing that there are exactly two (a third part would be silently dropped):\n" + p.String() + "\n"
+				break
+			}
+		}
+		x.C.Obl("C14.R2", "slice-two-parts:Parse", x.pos(f), "a slice segment is only built from a token with exactly one ':' (sliceRegex, every alternative of which contains exactly one ':', or len(parts) == 2)", badS == "" && nS > 0, badS)
+	}
 	// success after the loop returns the accumulated selector
 	okRet := true
 	for _, p := range ps {
@@ -386,4 +426,78 @@ func lookupIndexOf(x *Ctx, t *paths.Term) (int, bool) {
 		}
 	})
 	return k, found
+}
+
+// regexColons returns, per regex global of the selector package, the number of literal ':' that
+// every alternative of the expression contains (-1 if alternatives differ).
+func regexColons(x *Ctx) map[string]int {
+	out := map[string]int{}
+	for name, src := range regexSources(x) {
+		re, err := syntax.Parse(src, syntax.Perl)
+		if err != nil {
+			continue
+		}
+		lo, hi := colonRange(re)
+		if lo == hi {
+			out[name] = lo
+		} else {
+			out[name] = -1
+		}
+	}
+	return out
+}
+
+// colonRange: minimum and maximum number of ':' a match can contain (hi = 99 when unbounded).
+func colonRange(re *syntax.Regexp) (int, int) {
+	switch re.Op {
+	case syntax.OpLiteral:
+		n := 0
+		for _, r := range re.Rune {
+			if r == ':' {
+				n++
+			}
+		}
+		return n, n
+	case syntax.OpCharClass:
+		for i := 0; i+1 < len(re.Rune); i += 2 {
+			if re.Rune[i] <= ':' && ':' <= re.Rune[i+1] {
+				return 0, 1
+			}
+		}
+		return 0, 0
+	case syntax.OpAnyChar, syntax.OpAnyCharNotNL:
+		return 0, 1
+	case syntax.OpCapture:
+		return colonRange(re.Sub[0])
+	case syntax.OpConcat:
+		lo, hi := 0, 0
+		for _, s := range re.Sub {
+			l, h := colonRange(s)
+			lo, hi = lo+l, hi+h
+		}
+		return lo, hi
+	case syntax.OpAlternate:
+		lo, hi := 1<<30, 0
+		for _, s := range re.Sub {
+			l, h := colonRange(s)
+			if l < lo {
+				lo = l
+			}
+			if h > hi {
+				hi = h
+			}
+		}
+		return lo, hi
+	case syntax.OpStar, syntax.OpPlus, syntax.OpQuest, syntax.OpRepeat:
+		l, h := colonRange(re.Sub[0])
+		if h == 0 {
+			return 0, 0
+		}
+		if re.Op == syntax.OpQuest {
+			return 0, h
+		}
+		_ = l
+		return 0, 99
+	}
+	return 0, 0
 }
